@@ -329,9 +329,14 @@ def build_image(im, image_id, resolved):
         "prefix_suffix_data_locators.number_of_lines_per_burst": 21 + image_id,
         "scansar_burst_data_information.number_of_overlap_lines_with_adjacent_bursts": 31 + image_id,
     }
+    hid = image_id
+    if im.get("twin_header"):
+        # the polarisations of one scene are processed onto the same grid: their file descriptors are identical field by field
+        hid = 0
+        hov.update({"prefix_suffix_data_locators.maximum_data_range_of_pixel": 65535, "prefix_suffix_data_locators.number_of_burst_data": 11, "prefix_suffix_data_locators.number_of_lines_per_burst": 21, "scansar_burst_data_information.number_of_overlap_lines_with_adjacent_bursts": 31})
     hov.update(im["header"])
     r = resolved.setdefault(("img%d" % image_id, "file_descriptor"), {})
-    out = [encode_record(fd, hov, salt=50 + image_id, resolved=r)]
+    out = [encode_record(fd, hov, salt=50 + hid, resolved=r)]
     rec = layout(info["rec"])
     samples = samples_bytes(im, image_id)
     assert len(samples) == L
